@@ -352,8 +352,16 @@ def index_rows(root):
 VERSION_DIR = re.compile(r"^(?P<name>.+)\.task\.(?P<ts>[0-9]+)$")
 
 
+def _staging_name():
+    setup_impl_path()
+    from conductor.config import ARCHIVE_STAGING  # pylint: disable=import-outside-toplevel
+
+    return ARCHIVE_STAGING
+
+
 def version_dirs(project):
-    """{(ident, ts): absolute path} of every <name>.task.<ts> directory under cond-out"""
+    """{(ident, ts): absolute path} of every <name>.task.<ts> directory under cond-out (restore's staging directory
+    is not searched, unless its name could be a package of the project)"""
     out = {}
     co = os.path.join(project.root, "cond-out")
     if not os.path.isdir(co):
@@ -366,7 +374,7 @@ def version_dirs(project):
                 rel = "" if rel == "." else rel
                 out[("//%s:%s" % (rel, m.group("name")), int(m.group("ts")))] = os.path.join(dp, dn)
                 dns.remove(dn)
-            elif dn == "archive-tmp":
+            elif dn == _staging_name() and re.match(r"^[a-zA-Z0-9_-]+\Z", dn) is None and dp == co:
                 dns.remove(dn)
     return out
 
